@@ -270,7 +270,8 @@ def racy_sets(prog: Program, fs0: dict[str, Any]) -> tuple[set[str], set[str]]:
             view_racy |= {ref} | prog.descendants(ref)
             early |= {ref} | prog.descendants(ref)
     for s_ in jump_parallel(prog):
-        view_racy |= prog.descendants(s_)
+        # (the stage itself too: in which iterations its tasks get to run before the next jump hits is a race)
+        view_racy |= {s_} | prog.descendants(s_)
     # an OR-split that does not activate a downstream stage X skips X at once, whatever X's other upstreams are
     # doing: everything after X may start while those still run, so what it sees of them is a race
     for ref in prog.order:
